@@ -387,3 +387,36 @@ def switches_depending_on_field(body, field):
     return out
 
 
+
+
+def validation_anchors(body):
+    """(number of rejecting branches every successful path must pass, number of must-pass loops that contain
+    a rejecting branch).  A rejecting branch is a switch/assert on which a rejecting block is control dependent."""
+    rej = reject_blocks(body)
+    oks = ok_exits(body) if returns_result(body) else body.return_blocks()
+    rs = []
+    for sb in range(body.n):
+        t = body.term(sb)
+        if t["k"] == "assert":
+            rs.append(sb)
+            continue
+        if t["k"] != "switch":
+            continue
+        for tgt in body.succ(sb):
+            r = body.reachable(0, removed_edges=[(sb, tgt)])
+            if any(x not in r for x in rej):
+                rs.append(sb)
+                break
+
+    def mustpass(x):
+        return bool(oks) and all(e not in body.reachable(0, removed_blocks=[x]) for e in oks)
+    direct = [s for s in rs if mustpass(s)]
+    dom = body.dominators()
+    loops = set()
+    for s in rs:
+        if s in direct:
+            continue
+        for h in dom.get(s, ()):
+            if h != s and s in body.reachable(h) and h in body.reachable(s) and mustpass(h):
+                loops.add(h)
+    return len(direct), len(loops)
